@@ -81,7 +81,7 @@ static void body(void) {
   vx_require(amax >= 1);
   int a = 1 + vx_choose("npc-1", amax);
   ld sig1 = sqrtl(lam[0]);
-  double dc = nipals_delta(n, CPCACONVERGENCE), dp = nipals_delta(n, PCACONVERGENCE);
+  double dc = nipals_delta(n, DOC_CPCACONVERGENCE), dp = nipals_delta(n, DOC_PCACONVERGENCE);
   int judged[NC]; double allow[NC], allow_pca[NC], vallow[NC]; int njudged = 0;
   { double r = 0; for (int k = 0; k < a; k++) judged[k] = 0;
     for (int k = 0; k < a; k++) {
@@ -97,6 +97,7 @@ static void body(void) {
   vx_require(njudged > 0);
 
   /* ---- the fit under test */
+  H_INPUT_HASH = vx_hash_doubles(X_, (size_t)(n * ptot), (uint64_t)(scaling + 8 * a + 64 * nb));
   CPCAMODEL *mod; NewCPCAModel(&mod);
   char key[160]; static char TK[160]; snprintf(TK, sizeof TK, "nonterm|CPCA|scaling=%d", scaling);
   fit_begin(nproc, 0, TK);
@@ -107,12 +108,12 @@ static void body(void) {
   for (int k = 0; shp && k < a; k++) shp = (int)mod->block_scores->m[k]->row == n && (int)mod->block_scores->m[k]->col == nb && (int)mod->block_expvar->d[k]->size == nb;
   for (int b = 0; shp && b < nb; b++) shp = (int)mod->block_loadings->m[b]->row == w[b] && (int)mod->block_loadings->m[b]->col == a;
   vx_check(shp, "shape|CPCA", "%d blocks n=%d npc %d: model has unexpected shapes", nb, n, a);
-  if (!shp) { vx_outcome(5); return; }
+  if (!shp) { vx_outcome(vx_hash_doubles(X_, (size_t)(n * ptot), (uint64_t)(5 + 16 * scaling + 256 * nb))); return; }
   int fin = hm_allfinite(mod->super_scores) && hm_allfinite(mod->super_weights) && hv_allfinite(mod->total_expvar);
   for (int k = 0; k < a; k++) fin = fin && hm_allfinite(mod->block_scores->m[k]) && hv_allfinite(mod->block_expvar->d[k]);
   for (int b = 0; b < nb; b++) fin = fin && hm_allfinite(mod->block_loadings->m[b]);
   vx_check(fin, "finite|CPCA", "%d blocks n=%d scaling %d npc %d: non-finite model", nb, n, scaling, a);
-  if (!fin) { vx_outcome(6); return; }
+  if (!fin) { vx_outcome(vx_hash_doubles(X_, (size_t)(n * ptot), (uint64_t)(6 + 16 * scaling + 256 * nb))); return; }
 
   /* blocks "preprocessed identically": stored centring/scaling = public preprocessing; factor = sqrt(width) */
   { int okp = 1; double worstf = 0;
@@ -218,6 +219,6 @@ int main(int argc, char **argv) {
   vx_describe("alphabet", "blocks 2..4, widths all tuples over {1,2,3,5,8} with total <= 12 (%d/%d/%d tuples), objects {5,8,30} [+6,13], scaling 0..5, X = U diag(ratio^i) V' (ratio .3|.6, U'1=0) scaled to min column SD 0.5 + offsets (1,-7.5,2.5,40), 1 [4] instances, npc 1..min(block width, rank), nproc {1,3}", NTUP[0], NTUP[1], NTUP[2]);
   vx_describe("oracle", "super score k = +/- reference principal score of Z=[E_b/sqrt(w_b)] within sigma_1*(5k*delta/(1-r)^2 + rounding floor), delta=sqrt(n*1e-18); total_expvar = 100 lambda_k/trace; |w|=1; super = block scores * weights; block loadings = E_b't/t't; block scores = E_b p_b/(|p_b| sqrt w_b) (convergence allowance); block_expvar in [0,100], non-decreasing, = cumulative fraction; CPCAScorePredictor(training) = super scores; secondarily library PCA(Z) with both allowances, keyed by lambda_k<10");
   vx_set_shard_depth(2);
-  vx_expect_outcomes(300);   /* low on purpose: a library that breaks every fit must surface as violations, not as a vacuity error */
+  vx_expect_outcomes(40);   /* low on purpose: a library that returns the same (e.g. all-zero) model for every input of a shape must surface as violations, not as a vacuity error */
   return vx_main(argc, argv, "C09", body);
 }
